@@ -20,3 +20,12 @@ for s in d["steps"]:
             getattr(m.world, "op_" + s["op"])(__import__("mxsim.world").world.prepare(s))
         except Exception:
             traceback.print_exc()
+if "-t" in sys.argv:
+    from mxsim import history
+    tw, bad = history.build_twin(m.edits, "T")
+    print("twin bad:", bad)
+    for s in m.edits[-3:]:
+        print("edit:", {k: v for k, v in s.items() if k not in ("formula",)})
+    q = d["detail"]["query"]
+    print("live", m.world.apply(q)); print("twin", tw.apply(q))
+    print("live2", m.world.apply(q)); print("twin2", tw.apply(q))
